@@ -119,6 +119,36 @@ def step (σ : St) (toks : List String) : St × String :=
         | some db => ({ σ with db := db, st := some st },
             "ok " ++ showSet st.validators ++ " / " ++ showSet st.nextValidators)
     | _, _ => (σ, "bad-op")
+  | "handshake" :: rest =>
+    -- MakeGenesisState, then the node's Handshaker with an app whose InitChain returns `iv`
+    match (kv rest "ih").bind String.toInt?, (kv rest "v").bind (parseVals false),
+          (kv rest "iv").bind (parseVals false) with
+    | some ih, some valz, some iv =>
+      if ih < 1 ∨ ih > 4000000000000 ∨ !valz.all (fun v => inI64 v.power) ∨ !iv.all (fun v => inI64 v.power)
+      then (σ, "bad-op") else
+      match genesisState ih valz with
+      | .error e => (σ, "err-" ++ showErrIn valz e)
+      | .ok st0 =>
+        match handshakeInit st0 valz iv with
+        | .panic e => (σ, "hs-panic-" ++ showErrIn iv e)
+        | .noValidators => (σ, "err-novalidators")
+        | .ok st =>
+          match save DB.empty st with
+          | none => (σ, "err-save")
+          | some db => ({ σ with db := db, st := some st },
+              "ok " ++ showSet st.validators ++ " / " ++ showSet st.nextValidators)
+    | _, _, _ => (σ, "bad-op")
+  | ["bootstrap"] =>
+    -- state sync: a fresh store bootstrapped from the current state (LastHeightValidatorsChanged =
+    -- height of NextValidators, as statesync's state provider sets it)
+    match σ.st with
+    | some st =>
+      if st.lastBlockHeight < 1 then (σ, "bad-op") else
+      let st' := { st with lhvc := st.lastBlockHeight + 2 }
+      match bootstrap st' with
+      | none => (σ, "err-bootstrap")
+      | some db => ({ σ with db := db, st := some st' }, s!"ok base={st.lastBlockHeight}")
+    | none => (σ, "bad-op")
   | "block" :: rest =>
     match σ.st, (kv rest "ch").bind (parseVals false) with
     | some st, some ch =>
